@@ -28,6 +28,9 @@ def norm_join(a, b):
 
 class Sym:
     def __init__(self, F, crates):
+        # effects are followed through workspace calls by this engine itself: it works on the functions as written
+        from . import facts as _facts
+        F = _facts.uninlined_view(F)
         self.F = F
         self.crates = set(crates)
         self.bodies = {}
